@@ -106,6 +106,10 @@ def dec(e):
         return int(v)
     if k == "s":
         return str(v)
+    if k == "f":
+        return float(v)
+    if k == "b":
+        return bool(v)
     if k == "t":
         return tuple(dec(x) for x in v)
     return _fd({kk: dec(vv) for kk, vv in v})
@@ -114,8 +118,8 @@ def dec(e):
 def tkey(e):
     """total order extending Python's `<` on the decoded labels wherever that is defined"""
     k, v = e
-    if k == "i":
-        return (0, v)
+    if k in ("i", "f", "b"):                 # ints, floats and bools compare with each other by value
+        return (0, float(v))
     if k == "s":
         return (1, v)
     if k == "t":
@@ -126,6 +130,13 @@ def tkey(e):
 def gen_label(rng, kind, depth=0):
     if kind == "int":
         return ["i", rng.randint(-3, 12)]
+    if kind == "num":                        # ints, non-integral floats, 0.0, False / True
+        r = rng.random()
+        if r < .45:
+            return ["i", rng.randint(-3, 12)]
+        if r < .85:
+            return ["f", rng.choice([-1.5, 0.5, 2.5, 0.0, 7.25, 1e6])]
+        return ["b", rng.random() < .5]
     if kind == "str":
         return ["s", rng.choice(WORDS)]
     if kind == "tup":
@@ -137,6 +148,8 @@ def gen_label(rng, kind, depth=0):
         return ["d", [[k, ["i", rng.randint(-1, 2)]] for k in keys]]
     # mixed
     r = rng.random()
+    if r < .06:
+        return gen_label(rng, "num")
     if r < .22:
         return gen_label(rng, "int")
     if r < .44:
@@ -149,9 +162,21 @@ def gen_label(rng, kind, depth=0):
     return ["t", [gen_label(rng, "mixed", depth + 1) for _ in range(k)]]
 
 
+FALSY = {"int": [["i", 0]], "num": [["i", 0], ["f", 0.0], ["b", False]], "str": [["s", ""]], "fd": [["d", []]],
+         "mixed": [["i", 0], ["f", 0.0], ["b", False], ["s", ""], ["t", []], ["d", []]]}
+
+
+def is_falsy(e):
+    return not dec(e)
+
+
 def gen_labels(rng, n, kind):
     out, seen = [], set()
     tries = 0
+    if kind in FALSY and rng.random() < .35:      # a falsy label (0, 0.0, False, "", (), frozendict())
+        e = rng.choice(FALSY[kind])
+        out.append(e)
+        seen.add(repr(e))
     while len(out) < n:
         e = gen_label(rng, kind)
         h = repr(e)
@@ -214,14 +239,15 @@ def gen_case(rng, tier):
     abs_out = r < .14
     # boundary discount rates: 1, 0 (myopic; falsy in Python), 2^-20; else gen_mdp's 1/2..19/20
     rg = rng.random()
-    gamma = "1" if rg < .2 else "0" if rg < .32 else "1/1048576" if rg < .38 else None
+    gamma = "1" if rg < .2 else "0" if rg < .32 else "1/1048576" if rg < .37 else "1048575/1048576" if rg < .42 else None
     qv = None
     uniform = False
     if rng.random() < .25:
         qv = {"det": rng.random() < .5, "const_reward": rng.random() < .5, "const_actions": rng.random() < .5,
               "init_state": rng.random() < .4, "init_callable": rng.random() < .5}
         uniform = qv["const_actions"]
-    m = gen_mdp.gen_mdp(rng, nmax=nmax, amax=3, gamma=gamma, uniform_actions=uniform,
+    no_goal = not abs_out and rng.random() < .08          # no explicitly absorbing state at all
+    m = gen_mdp.gen_mdp(rng, nmax=nmax, amax=3, gamma=gamma, uniform_actions=uniform, goal=not no_goal,
                         absorbing_out=("free" if abs_out else "self"), min_states=2 if abs_out else 1)
     n, nA = m["n"], m["nA"]
     if abs_out and rng.random() < .6:
@@ -259,6 +285,25 @@ def gen_case(rng, tier):
             for k in [k for k in m["reward"] if k.startswith("%d,%d," % (s, a))]:
                 m["reward"].pop(k)
         m["actions"][s] = []
+    # large magnitudes / tiny relative gaps between rewards (separate cases: the float sums stay exact)
+    if qv is None and m["reward"] and rng.random() < .12:
+        keys = sorted(m["reward"])
+        if rng.random() < .5:
+            for k in rng.sample(keys, min(len(keys), 2)):
+                m["reward"][k] = str(rng.choice([1, -1]) * rng.choice([1000, 2 ** 20, 10 ** 6]))
+        else:
+            base = F(rng.randint(-3, 3))
+            for k, d in zip(rng.sample(keys, min(len(keys), 2)), [F(1, 2 ** 30), -F(1, 2 ** 30)]):
+                m["reward"][k] = str(base + d)
+    # near-boundary initial probabilities (S0 keeps p > 0 however small)
+    pos = [e for e in m["init"] if F(e[1]) > 0]
+    if not (qv and qv["init_state"]) and len(pos) >= 2 and rng.random() < .12:
+        tiny = F(1, 2 ** 30)
+        rest = [e for e in m["init"] if F(e[1]) == 0]
+        pos = pos[:2]
+        pos[0][1], pos[1][1] = str(1 - tiny), str(tiny)
+        rng.shuffle(pos)
+        m["init"] = pos + rest
     # boundary of the implicit-absorbing rule (exact `== 1` / `== 0` tests in absorbing_state_vec):
     # a NON-absorbing state whose every action self-loops with probability 1 - 2^-k (rest elsewhere, no rewards),
     # or self-loops with probability exactly 1 but earns a reward of +-2^-30 on one action.  All dyadic: floats exact.
@@ -284,6 +329,11 @@ def gen_case(rng, tier):
                 a = rng.choice(m["actions"][s])
                 m["reward"]["%d,%d,%d" % (s, a, s)] = str(rng.choice([1, -1]) * F(1, 2 ** 30))
             m_boundary = kind
+    # no action anywhere: empty action list, arrays of shape (n, 0, n)
+    if qv is None and not abs_out and n <= 2 and rng.random() < .25:
+        m["actions"] = [[] for _ in range(n)]
+        m["trans"], m["reward"] = {}, {}
+        m_boundary = None
     # actions(s) listing an action twice (assignment, not accumulation, fills the arrays)
     if not uniform and rng.random() < .08:
         cand = [s for s in range(n) if m["actions"][s]]
@@ -291,8 +341,8 @@ def gen_case(rng, tier):
             s = rng.choice(cand)
             m["actions"][s] = list(m["actions"][s])
             m["actions"][s].insert(rng.randint(0, len(m["actions"][s])), rng.choice(m["actions"][s]))
-    skind = rng.choice(["int", "int", "str", "tup", "tup_is", "fd", "mixed", "mixed", "mixed"])
-    akind = rng.choice(["int", "str", "str", "tup", "fd", "mixed", "mixed"])
+    skind = rng.choice(["int", "int", "num", "str", "tup", "tup_is", "fd", "mixed", "mixed", "mixed"])
+    akind = rng.choice(["int", "num", "str", "str", "tup", "fd", "mixed", "mixed"])
     case = {"mdp": m, "slabels": gen_labels(rng, n, skind), "alabels": gen_labels(rng, nA, akind),
             "skind": skind, "akind": akind, "abs_out": abs_out, "boundary": m_boundary,
             # pass the discount rate as a Python int (0 / 1) instead of a float (0.0 / 1.0)
@@ -300,6 +350,18 @@ def gen_case(rng, tier):
             "explicit_states": None, "explicit_actions": None, "qv": qv,
             "cutoffs": sorted(set(rng.randint(0, n + 1) for _ in range(rng.randint(1, 3)))),
             "vi": {"max_iterations": 60, "max_residual": "1/100000"}}
+    # falsy start state for the `initial_state=` form of the quick constructor
+    if qv and qv["init_state"]:
+        fal = [i for i, e in enumerate(case["slabels"]) if is_falsy(e)]
+        if fal:
+            m["init"] = [[fal[0], "1"]]
+    # representations: reachable_states call order / float cut-offs, list vs tuple containers, msdm's own
+    # Deterministic / Uniform distribution classes where a row has that shape
+    order = [None] + case["cutoffs"]
+    rng.shuffle(order)
+    case.update({"reach_order": order, "cutoff_float": rng.random() < .3, "actions_as_list": rng.random() < .3,
+                 "explicit_as_list": rng.random() < .4, "fm_lists": rng.choice(["domaintuple", "list", "tuple"]),
+                 "dist_repr": "native" if rng.random() < .4 else "dict"})
     r = rng.random()
     if r < (.5 if abs_out else .3):
         p = list(range(n))
@@ -659,8 +721,13 @@ def check_case(ctx, case, res, val, stats):
                                      "clause": "an absorbing initial state is expanded: the reachable set / inferred state list contains "
                                                "successors of an absorbing state"}, True)
             stats["absorbing_initial_expanded"] += 1
+    for run in res["reach"]:
+        if "error" not in run and run.get("again") != run["result"]:
+            ck.report("C06:reachable:second-call-differs", {"run": run, "clause": "the same call returns a different set the second time"}, True)
     # --- lists and arrays of the original ----------------------------------------------
     o = res["orig"]
+    if res.get("orig_again") != o:
+        ck.report("C06:orig:second-read-differs", {"first": o, "second": res.get("orig_again")}, True)
     la = ck.compare_lists("orig", o, lists_m, case["explicit_states"], case["explicit_actions"])
     if la is None:
         return ck.nviol
@@ -735,6 +802,19 @@ def check_case(ctx, case, res, val, stats):
                               "clause": "wrapping the functions in the quick constructor does not give identical arrays/lists"}, True)
         if qr.get("reach") != sorted(full_code):
             ck.report("C06:%s:reachable-differs" % tag, {"impl": qr.get("reach"), "expected": sorted(full_code)}, True)
+    qu = res.get("quick_used")
+    if qu is not None and qu != {k: v for k, v in res.get("quick", {}).items() if k != "reach"}:
+        ck.report("C06:quick:wrapping-a-used-object-differs", {"wrapped_used": qu, "wrapped_fresh": res.get("quick"),
+                  "clause": "wrapping the functions of an MDP whose views were already computed gives different views"}, True)
+    if res.get("quick_assertions") != ["AssertionError", "AssertionError"]:
+        ck.report("C06:quick:constructor-assertions", {"impl": res.get("quick_assertions")}, False)
+    tp = res.get("table_paths")
+    exp_tp = {"state_table_from_dict": True, "state_table_from_list": True, "missing_key": "StateActionIndexError",
+              "from_state_list_2d": "NotImplementedError"}
+    if al:
+        exp_tp["state_action_table_from_dict"] = True
+    if tp != exp_tp:
+        ck.report("C06:tables:constructors-or-error-path", {"impl": tp, "expected": exp_tp}, True)
     qp = res.get("quick_plain", {})
     if "error" in qp:
         ck.report("C06:quick_plain:raises:%s" % qp["error"].split(":")[0], {"error": qp["error"]}, True)
@@ -744,6 +824,12 @@ def check_case(ctx, case, res, val, stats):
     pl = res.get("plan")
     if pl:
         po = pl.get("orig")
+        sh = pl.get("shared")
+        want = ([pl["rebuilt"]] if "rebuilt" in pl else []) + [po]
+        norm = lambda x: x["error"].split(":")[0] if "error" in x else x
+        if isinstance(sh, dict) or [norm(x) for x in sh] != [norm(x) for x in want]:
+            ck.report("C06:plan:reused-planner-differs", {"shared": sh, "fresh": want,
+                      "clause": "a ValueIteration object reused on a second MDP returns different results than a fresh one"}, True)
         for tag in ("rebuilt", "quick"):
             pr = pl.get(tag)
             if pr is None:
@@ -817,6 +903,15 @@ def run(ctx):
              "states_sortable": bool(v[1][2]), "actions_sortable": bool(v[1][5]),
              "dead_end": any(len(a) == 0 for a in case["mdp"]["actions"]),
              "boundary_prob": case.get("boundary") == "prob", "boundary_reward": case.get("boundary") == "reward",
+             "gamma_near_one": F(999, 1000) < F(case["mdp"]["gamma"]) < 1, "no_actions_at_all": not any(case["mdp"]["actions"]),
+             "no_explicit_absorbing": not any(case["mdp"]["absorbing"]),
+             "falsy_state_label": any(is_falsy(e) for e in case["slabels"]), "falsy_action_label": any(is_falsy(e) for e in case["alabels"]),
+             "tiny_initial_probability": any(0 < F(p) < F(1, 1000) for _, p in case["mdp"]["init"]),
+             "large_reward": any(abs(F(r)) >= 1000 for r in case["mdp"]["reward"].values()),
+             "tiny_reward_gap": any(F(r).denominator == 2 ** 30 and abs(F(r)) > F(1, 2) for r in case["mdp"]["reward"].values()),
+             "cutoff_first": case["reach_order"][0] is not None, "cutoff_float": case["cutoff_float"],
+             "actions_as_list": case["actions_as_list"], "native_distributions": case["dist_repr"] == "native",
+             "fm_" + case["fm_lists"]: True,
              "gamma_zero": F(case["mdp"]["gamma"]) == 0, "gamma_tiny": 0 < F(case["mdp"]["gamma"]) < F(1, 1000),
              "gamma_passed_as_int": bool(case.get("gamma_int")),
              "repeated_action": any(len(set(a)) != len(a) for a in case["mdp"]["actions"]),
@@ -829,7 +924,7 @@ def run(ctx):
         "distinct_nontrivial": len(distinct),
         "rule": "functional MDPs from harness/gen_mdp.py (1..%d states, 1..3 actions, k/8 probabilities, zero-probability entries in "
                 "next-state and initial distributions, rewards on zero-probability successors, explicit/implicit absorbing states, near-absorbing states (self-loop probability 1 - 2^-k, k in {10,20,30}, or reward +-2^-30 on a certain self-loop), dead ends, actions listed twice, "
-                "gamma in {1/2..19/20, 1, 0, 2^-20}, 0 and 1 passed as int or float) relabelled with ints / strings / int tuples / (int,str) tuples / frozendicts / nested mixed tuples "
+                "gamma in {1/2..19/20, 1, 0, 2^-20, 1-2^-20}, 0 and 1 passed as int or float) rewards up to 1e6 or 2^-30 apart, initial probabilities 2^-30 / 1-2^-30, MDPs without any action or without absorbing states; relabelled with ints / floats / bools / falsy labels (0, 0.0, False, '', (), frozendict()) / strings / int tuples / (int,str) tuples / frozendicts / nested mixed tuples "
                 "(sortable and unsortable sets), explicit (shuffled, with unreachable states) or inferred state and action lists, 1-3 "
                 "max_states cut-offs in 0..n+1, constant/deterministic QuickMDP argument variants; %s; distinct = structural hash of (MDP, labels, "
                 "explicit lists); every case is non-trivial (>= 1 state with a transition row or a dead end)"
